@@ -6,6 +6,14 @@
   checked as a monitor (REJECT:<why> if it violates the launch postcondition the
   theorems assume); the configure section is predicted by the model from the
   input and the launch section, and the answer is "(launch configure_model)".
+
+  Template form: line = "(hosts classes ttree sw)<TAB>(launch configure seen)" — the
+  workflow template (iterators, templated names / targets / aliases, see
+  harness/props/c13/tmpl.go) is expanded by the model (`expand`: every generated
+  role instantiates its own copy of the declarations in its own context), the
+  answer is "(launch configure_model seen_model)" and the Spec evaluated on the
+  implementation's outcome is `SpecT`: the outcome judged against the template AS
+  WRITTEN, instantiated per generated role, plus the resolved text itself.
 -/
 import ControlModel.Model.Channels
 import ControlModel.Spec.C13
@@ -146,6 +154,99 @@ def monitor (hosts : List (String × List (Nat × Nat))) (decls : List TaskDecl)
     then some "alloc_loop_mismatch"
   else none
 
+/-! the template form: `(hosts classes ttree sw)` / `(launch configure seen)` -/
+
+def parseSeg : SExp → Option Seg
+  | .atom s => some (.lit s)
+  | .list [.atom "v", .atom x] => some (.var x)
+  | .list [.atom "pp"] => some .parentPath
+  | .list [.atom "pn"] => some .parentName
+  | .list [.atom "tp"] => some .thisPath
+  | .list [.atom "tn"] => some .thisName
+  | _ => none
+
+def parseTmpl : SExp → Option Tmpl
+  | .atom "" => some []
+  | .atom s => some [.lit s]
+  | .list segs => segs.mapM? parseSeg
+
+/-- Role names are resolved at STAGE4: no `This()` yet. -/
+def nameTmplOk (t : Tmpl) : Bool := t.all fun s => s != .thisPath && s != .thisName
+
+def parseInT : SExp → Option InT
+  | .list [.atom n, .atom tr, .atom ad, .atom tg, g] => do
+      pure { name := n, transport := (← Transport.parse? tr), addressing := (← Addressing.parse? ad),
+             target := tg, global := (← parseTmpl g) }
+  | _ => none
+
+def parseOutT : SExp → Option OutT
+  | .list [.atom n, .atom tr, tg] => do
+      pure { name := n, transport := (← Transport.parse? tr), target := (← parseTmpl tg) }
+  | _ => none
+
+def parseBindsT (s : SExp) : Option (List InT) := do (← s.list?).mapM? parseInT
+def parseConnectsT (s : SExp) : Option (List OutT) := do (← s.list?).mapM? parseOutT
+
+partial def parseTForest : List SExp → Option TForest
+  | [] => some .nil
+  | .list (.atom "A" :: n :: b :: c :: kids) :: rest => do
+      let nm ← parseTmpl n
+      if !nameTmplOk nm then none
+      pure (.agg nm (← parseBindsT b) (← parseConnectsT c) (← parseTForest kids) (← parseTForest rest))
+  | .list [.atom "T", n, .atom cls, h, b, c] :: rest => do
+      let nm ← parseTmpl n
+      if !nameTmplOk nm then none
+      pure (.task nm cls (← h.nat?) (← parseBindsT b) (← parseConnectsT c) (← parseTForest rest))
+  | .list [.atom "I", .atom v, .list vals, body] :: rest => do
+      pure (.iter v (← vals.mapM? SExp.str?) (← parseTForest [body]) (← parseTForest rest))
+  | _ => none
+
+def parseSeen : SExp → Option SeenDecl
+  | .list [.atom p, b, c] => do pure { path := p, bind := (← parseBinds b), connect := (← parseConnects c) }
+  | _ => none
+
+def inboundSx (c : Inbound) : SExp :=
+  .list [.atom c.name, .atom c.transport.name, .atom (match c.addressing with | .tcp => "tcp" | .ipc => "ipc"),
+         .atom c.target, .atom c.global]
+
+def outboundSx (o : Outbound) : SExp := .list [.atom o.name, .atom o.transport.name, .atom o.target]
+
+def seenSx (d : SeenDecl) : SExp :=
+  .list [.atom d.path, .list (d.bind.map inboundSx), .list (d.connect.map outboundSx)]
+
+/-- Everything after parsing. `tmpl` = the template and the declarations the loaded workflow
+    handed out (template form only); `decls` carry the host index the harness placed the task on. -/
+def judge (hosts : List (String × List (Nat × Nat))) (classes : List (String × Class)) (decls : List TaskDecl)
+    (ls : List Launched) (cfg : SExp) (tmpl : Option (TForest × List SeenDecl)) : String :=
+  let tasks : List Task := (decls.zip ls).map fun (d, l) => mkTask classes d l.path l.host l.loc
+  match monitor hosts decls ls tasks with
+  | some why => s!"REJECT:{why}\t0\t-"
+  | none =>
+    let model := configure tasks
+    let modelObs := match tmpl with
+      | none => SExp.list [.list (ls.map launchedSx), cfgSx model]
+      | some _ => SExp.list [.list (ls.map launchedSx), cfgSx model, .list (decls.map fun (d : TaskDecl) => seenSx d.seen)]
+    -- the Spec, with the weakening flags (a, b); for a template: against the template as written
+    let specW (a b : Bool) (r : Except Err (List Props)) : Bool :=
+      match tmpl with
+      | none => decide (SpecW a b tasks r)
+      | some (root, seen) =>
+          decide (SpecTW a b classes root (ls.map fun l => (l.path, l.host, l.loc)) seen r)
+    let (spec, hyp) :=
+      match parseCfg cfg with
+      | none => (false, "-")
+      | some r =>
+        if specW false false r then (true, "-")
+        else
+          -- attribute the failure to an excluded hypothesis only if nothing else is wrong
+          let ntOk := noInboundTarget tasks
+          let advOk := tasks.all fun t => decide (aliasesAdvertised t)
+          if !ntOk && specW true false r then (false, "inbound_target_still_advertised")
+          else if !advOk && specW false true r then (false, "alias_redefined_within_task")
+          else if !ntOk && !advOk && specW true true r then (false, "inbound_target_still_advertised")
+          else (false, "-")
+    s!"{modelObs}\t{if spec then 1 else 0}\t{hyp}"
+
 def processLine (line : String) : String :=
   match SExp.fields line with
   | [inp, impl] =>
@@ -153,33 +254,18 @@ def processLine (line : String) : String :=
     | some (.list [.list hs, .list cs, tree]), some (.list [.list launch, cfg]) =>
       match hs.mapM? parseHost, cs.mapM? parseClass, parseForest [tree], launch.mapM? parseLaunched with
       | some hosts, some classes, some forest, some ls =>
-        let decls := flatten "" [] [] forest
-        let tasks : List Task := (decls.zip ls).map fun (d, l) =>
-          let cls := (Assoc.get classes d.cls).getD { bind := [], connect := [] }
-          { path := l.path, host := l.host,
-            inbound := mergeIn d.roleBind cls.bind,
-            outbound := mergeOut d.roleConnect cls.connectLoaded,
-            loc := l.loc }
-        match monitor hosts decls ls tasks with
-        | some why => s!"REJECT:{why}\t0\t-"
-        | none =>
-          let model := configure tasks
-          let modelObs := SExp.list [.list (ls.map launchedSx), cfgSx model]
-          let (spec, hyp) :=
-            match parseCfg cfg with
-            | none => (false, "-")
-            | some r =>
-              if decide (Spec tasks r) then (true, "-")
-              else
-                -- attribute the failure to an excluded hypothesis only if nothing else is wrong
-                let ntOk := noInboundTarget tasks
-                let advOk := tasks.all fun t => decide (aliasesAdvertised t)
-                if !ntOk && decide (SpecW true false tasks r) then (false, "inbound_target_still_advertised")
-                else if !advOk && decide (SpecW false true tasks r) then (false, "alias_redefined_within_task")
-                else if !ntOk && !advOk && decide (SpecW true true tasks r) then (false, "inbound_target_still_advertised")
-                else (false, "-")
-          s!"{modelObs}\t{if spec then 1 else 0}\t{hyp}"
+        judge hosts classes (flatten "" [] [] forest) ls cfg none
       | _, _, _, _ => "BADINPUT\t0\t-"
+    | some (.list [.list hs, .list cs, tree, _sw]), some (.list [.list launch, cfg, .list seen]) =>
+      match hs.mapM? parseHost, cs.mapM? parseClass, parseTForest [tree], launch.mapM? parseLaunched,
+            seen.mapM? parseSeen with
+      | some hosts, some classes, some root, some ls, some seen =>
+        -- placement convention of the harness: the j-th generated task role (tree order) runs on
+        -- host (base + j) mod #hosts, `base` = the host field of its role template
+        let decls := (templateDecls root).zipIdx.map fun (d, j) =>
+          { d with hostIdx := (d.hostIdx + j) % hosts.length }
+        judge hosts classes decls ls cfg (some (root, seen))
+      | _, _, _, _, _ => "BADINPUT\t0\t-"
     | _, _ => "BADINPUT\t0\t-"
   | _ => "BADLINE\t0\t-"
 
